@@ -308,8 +308,10 @@ static int utls_server(struct xcm_socket *s, const char *local_addr)
     char ux_addr[XCM_ADDR_MAX+1];
     map_tls_to_ux(actual_addr, ux_addr, sizeof(ux_addr));
 
-    if (bind_sub_server(&us->ux_socket, ux_addr) <  0)
+    if (bind_sub_server(&us->ux_socket, ux_addr) <  0) {
+	xcm_tp_socket_close(us->tls_socket);
 	goto err;
+    }
 
     LOG_SERVER_CREATED(s);
 
